@@ -127,12 +127,12 @@ ADDED = {
     'C06': 'Also: alias forms of the hash wrappers.',
     'C07': 'Also: lengths around mined constants, lengths up to 2^24+1 (differential), three alignments.',
     'C08': 'Also: big shapes (rows to 2^15), teams around and above the processor count and every nThreads 1..128, batch sizes up to 2^63 and around 2^64/dim, the caller inside its own parallel region, rows/columns around mined constants.',
-    'C09': 'Also: arrays up to 65537 elements, batchInverse with the result at every 8-byte offset modulo 64, batchInverse under memory caps (allocation failure as an environment answer), pointer overloads and in-place forms.',
+    'C09': 'Also: arrays up to 65537 elements, batchInverse with the result at every 8-byte offset modulo 64, batchInverse under memory caps (allocation failure as an environment answer), pointer overloads and in-place forms. Batch arrays also partially overlapping (result shifted by -2..+2 elements against the source in one buffer).',
     'C10': 'Also: operands floor(p/[q1;..;qk]) for every Euclid quotient word, every 3-call history over the inv/div forms, a call that ends the process is named by an exit handler.',
     'C12': 'Also: three input contents per scenario (all different / all equal / all zero), team sweep 2..17 (34) on 32..256 (2048) rows, blow-up factors up to 32 on N in {1,2}, dense parcpy size sweep, re-entrancy battery and free-running ThreadSanitizer pass; both OpenMP stand-ins implement the remaining GOMP entry points.',
     'C13': 'Also: alias forms, carry72 and straddle-2^64 operands, the coefficient array at every word offset modulo 64, the same kernels compiled inside an AVX-512 build and with -march=native.',
     'C14': 'Also: alias forms, carry72 and straddle-2^64 operands, the coefficient array at every word offset modulo 64.',
-    'C15': 'Also: every numeral text of 1..3 (4) symbols in every radix with an own parser, long numerals with leading zeros / upper case, the array overload of toString, the conversions repeated under a digit-grouping global locale, alias forms of the reference overloads.',
+    'C15': 'Also: every numeral text of 1..3 (4) symbols in every radix with an own parser, long numerals with leading zeros / upper case, the array overload of toString, the conversions repeated under a digit-grouping global locale, alias forms of the reference overloads. The reference-output toString overload on a string reused across calls.',
     'C16': 'Also: index-list shapes (all gap words), placements (0/8/16/24 mod 32), adjacent base pointers, constant sweep (2^k-1, 2^k, 2^k+1), whole-element patterns (one, zero, non-canonical one, basis elements, -1, base-field element in a / b / both x every stride configuration), huge strides on sparse reservations, a ThreadSanitizer re-entrancy step with shared index tables, the AVX2 overloads compiled inside an AVX-512 build and with -march=native.',
     'C17': 'Also: the passes listed for C16; parcpy / parSetZero from inside a parallel region, on every size 0..18432 and with buffers backed by shared and file mappings.',
     'C18': 'Also: a stack step (stack high-water at count c and 4c on a harness-owned stack; growth confirmed by a real overrun of an 8 MiB stack), an application-owned GMP allocator in the history harness.',
